@@ -488,3 +488,11 @@ package runtime
 //@   requires vmWF(vm) && (forall i int :: 0 <= i && i < len(libs) ==> libs[i] != nil)
 //@   modifies map(vm.externalLibs)
 //@   loop 1 invariant vmWF(vm)
+
+// ---- C16: every execution gets its own VM ----
+//@ func InitVM
+//@   requires globals != nil
+//@   modifies nothing
+//@   ensures [fresh-vm] fresh(result) && vmWF(result) && result.csCount == 0 && len(result.callStack) == 0 && result.csModuleID == 0 - 1 && result.globals == globals &&
+//@             fresh(result.valueStack) && fresh(result.externalLibs) && fresh(result.moduleGraph) && len(result.moduleGraph.modules) == 0 && len(result.moduleGraph.graph) == 0 &&
+//@             (forall k int :: !has(result.valueStack, k)) && (forall n string :: !has(result.externalLibs, n)) && (forall n string :: !has(result.moduleGraph.moduleNameMap, n))
